@@ -175,6 +175,15 @@ Section Ptrace.
   Qed.
 End Ptrace.
 
+Lemma memb_perm q S S' : Permutation S' S -> memb q S' = memb q S.
+Proof.
+  intros H. destruct (memb q S') eqn:E1; destruct (memb q S) eqn:E2; try reflexivity.
+  - apply memb_In in E1. apply (Permutation_in _ H) in E1. apply memb_In in E1. congruence.
+  - apply memb_In in E2. apply (Permutation_in _ (Permutation_sym H)) in E2. apply memb_In in E2. congruence.
+Qed.
+Lemma complement_perm n S S' : Permutation S' S -> complement n S' = complement n S.
+Proof. intros H. unfold complement. apply filter_ext. intros q. f_equal. now apply memb_perm. Qed.
+
 (* ---------- the two routes of the implementation *)
 Section Routes.
   Context {T : Type} (K : ops T) (cj : T -> T).
@@ -189,6 +198,16 @@ Section Routes.
     apply map_ext_in. intros b Hb. apply map_ext_in. intros c Hc.
     apply allbits_length in Hb. apply allbits_length in Hc.
     symmetry. apply (ptrace_entry_ok K SR n S S' Hnd Hlt Hp f b c Hb Hc).
+  Qed.
+
+  (* the textbook value depends on the SET of traced qubits only *)
+  Lemma ptrace_spec_perm n S S' (f : nat -> nat -> T) : Permutation S' S ->
+    ptrace_spec K n S' f = ptrace_spec K n S f.
+  Proof.
+    intros Hp. unfold ptrace_spec, ptrace_entry. cbv zeta. rewrite (complement_perm n S S' Hp).
+    apply map_ext. intros b. apply map_ext. intros c.
+    apply (lsum_map_ext K). intros x _. apply (lsum_map_ext K). intros y _.
+    now rewrite (beqb_sel_perm S' S x y Hp).
   Qed.
 
   Theorem ptrace_dm_ok n S rho : NoDup S -> (forall q, In q S -> q < n) ->
